@@ -16,7 +16,7 @@ from . import common
 
 ID = 'C02'
 LEVEL = 'exploration'
-RUNS = {'quick': 5000, 'thorough': 120000}
+RUNS = {'quick': 10000, 'thorough': 240000}
 SIM_TIME_UNIT = 'samples'
 RULE = ('seeded generation of (past-time specification with repeated sub-formulas, trace of 1..14 samples, jittered clock, '
         'per-step input permutation, optional co-hosted monitor interleaved); every prefix is a checked history; non-trivial = '
